@@ -362,6 +362,64 @@ pub fn worker_k<K: Kind>(args: &[String]) -> i32 {
     0
 }
 
+pub const SWEEP_PROPS: [&str; 7] = ["C01", "C02", "C03", "C04", "C05", "C06", "C08"];
+
+/// One worker of the small-scope sweep: cases index, index+of, ...
+pub fn sweep_worker(args: &[String]) -> i32 {
+    let id = args[0].clone();
+    let index: u64 = arg(args, "--index").unwrap().parse().unwrap();
+    let of: u64 = arg(args, "--of").unwrap().parse().unwrap();
+    let out_path = arg(args, "--out").unwrap().to_string();
+    let limit: u64 = arg(args, "--limit").and_then(|s| s.parse().ok()).unwrap_or(u64::MAX);
+    init_process();
+    let mut out = WorkerOut { label_hist: vec![0; 64], counters: vec![0; exec::NCOUNTERS], ..Default::default() };
+    let mut hashes: BTreeSet<u64> = BTreeSet::new();
+    let total = crate::sweep::total().min(limit);
+    let mut k = index;
+    while k < total {
+        let c = crate::sweep::case(k);
+        let s = crate::sweep::to_script(&c, k);
+        let r = run_case(&id, Tier::Thorough, &s);
+        out.evaluations += 1;
+        for l in 0..64 {
+            if r.labels & (1u64 << l) != 0 {
+                out.label_hist[l] += 1;
+            }
+        }
+        match r.outcome {
+            Outcome::Pass | Outcome::ExpectedAbort => {
+                out.pass += 1;
+                if r.nontrivial {
+                    hashes.insert(case_hash(&s));
+                    if out.samples.len() < 2 {
+                        out.samples.push(format!("sweep#{} {:?} => {}", k, c, s.compact()));
+                    }
+                }
+            }
+            Outcome::Violation => {
+                out.violations += 1;
+                if out.failure.is_none() {
+                    out.failure = Some(Failure { script: Some(serde_json::to_value(&s).unwrap()), msg: r.msg.clone(), first_msg: r.msg.clone(), first_script: None });
+                }
+            }
+            Outcome::OtherView => out.other_view += 1,
+            Outcome::KnownFinding => out.known += 1,
+            Outcome::Internal | Outcome::None => {
+                out.internal += 1;
+                if out.internal_msgs.len() < 3 {
+                    out.internal_msgs.push(format!("{} :: sweep#{}", r.msg, k));
+                }
+            }
+            Outcome::Exhausted => out.exhausted += 1,
+            Outcome::Timeout => out.timeout += 1,
+        }
+        k += of;
+    }
+    out.nontrivial_hashes = hashes.into_iter().collect();
+    std::fs::write(&out_path, serde_json::to_string(&out).unwrap()).unwrap();
+    0
+}
+
 // ---- replay --------------------------------------------------------------------
 
 pub fn load_replay<C: serde::de::DeserializeOwned>(path: &Path) -> Result<ReplayFile<C>, String> {
@@ -528,6 +586,8 @@ pub fn launcher_k<K: Kind>(args: &[String]) -> i32 {
     let _ = std::fs::create_dir_all(&run_dir);
     let exe = std::env::current_exe().unwrap();
     let mut children = vec![];
+    let alt_bin: Option<PathBuf> = arg(args, "--alt-bin").map(PathBuf::from).filter(|p| p.exists());
+    let mut alt_workers = 0u64;
     if total > 0 {
         for i in 0..nworkers {
             let cases = total / nworkers + if i < total % nworkers { 1 } else { 0 };
@@ -535,7 +595,14 @@ pub fn launcher_k<K: Kind>(args: &[String]) -> i32 {
                 continue;
             }
             let out = run_dir.join(format!("w{}.json", i));
-            let child = std::process::Command::new(&exe)
+            // thorough tier: every other worker runs the plain release profile
+            // (no debug assertions / overflow checks: wrap-around changes which
+            // path misbehaves)
+            let use_alt = alt_bin.is_some() && i % 2 == 1;
+            if use_alt {
+                alt_workers += 1;
+            }
+            let child = std::process::Command::new(if use_alt { alt_bin.as_ref().unwrap() } else { &exe })
                 .arg("worker")
                 .arg(&id)
                 .arg("--tier")
@@ -601,6 +668,72 @@ pub fn launcher_k<K: Kind>(args: &[String]) -> i32 {
         if let Some(f) = wo.failure {
             failures.push(f);
         }
+    }
+    // 2b. small-scope sweep (thorough tier)
+    let mut sweep_info = serde_json::json!(null);
+    let do_sweep = SWEEP_PROPS.contains(&id.as_str()) && (tier == Tier::Thorough || arg(args, "--sweep").is_some()) && arg(args, "--no-sweep").is_none();
+    if do_sweep {
+        let limit = arg(args, "--sweep").and_then(|s| s.parse::<u64>().ok()).unwrap_or(u64::MAX);
+        let mut kids = vec![];
+        for i in 0..nworkers {
+            let out = run_dir.join(format!("s{}.json", i));
+            let child = std::process::Command::new(&exe)
+                .arg("sweepworker")
+                .arg(&id)
+                .arg("--index")
+                .arg(i.to_string())
+                .arg("--of")
+                .arg(nworkers.to_string())
+                .arg("--limit")
+                .arg(limit.to_string())
+                .arg("--out")
+                .arg(&out)
+                .spawn()
+                .expect("cannot spawn sweep worker");
+            kids.push((child, out));
+        }
+        let mut sw_eval = 0u64;
+        let mut sw_nontrivial = 0usize;
+        let mut sw_other = 0u64;
+        for (mut child, out) in kids {
+            let _ = child.wait();
+            let Ok(txt) = std::fs::read_to_string(&out) else {
+                undecided.push("sweep worker produced no output".into());
+                continue;
+            };
+            let Ok(wo) = serde_json::from_str::<WorkerOut>(&txt) else {
+                undecided.push("bad sweep worker output".into());
+                continue;
+            };
+            sw_eval += wo.evaluations;
+            sw_other += wo.other_view;
+            merged.internal += wo.internal;
+            merged.timeout += wo.timeout;
+            merged.other_view += wo.other_view;
+            merged.internal_msgs.extend(wo.internal_msgs);
+            for i in 0..64 {
+                merged.label_hist[i] += wo.label_hist[i];
+            }
+            sw_nontrivial += wo.nontrivial_hashes.len();
+            hashes.extend(wo.nontrivial_hashes.iter().copied());
+            for smp in wo.samples {
+                if merged.samples.len() < 8 {
+                    merged.samples.push(smp);
+                }
+            }
+            if let Some(f) = wo.failure {
+                failures.push(f);
+            }
+        }
+        replayed += sw_eval;
+        sweep_info = serde_json::json!({
+            "cases": sw_eval,
+            "space": crate::sweep::total(),
+            "exhaustive": limit == u64::MAX,
+            "nontrivial": sw_nontrivial,
+            "inconclusive_other_property": sw_other,
+            "description": "every adoption multigraph on 1..3 objects with multiplicity <= 2 per ordered pair (self pairs included) x kept/dropped roots x Weak to every object or none x every drop order; plus n=2 with multiplicity <= 3, one optional unrecorded stored handle, one optional loopback",
+        });
     }
     let _ = std::fs::remove_dir_all(&run_dir);
 
@@ -671,7 +804,9 @@ pub fn launcher_k<K: Kind>(args: &[String]) -> i32 {
             "known_finding_examples": merged.kf_msgs.iter().take(2).collect::<Vec<_>>(),
             "labels": labels,
             "totals": K::totals(c),
+            "small_scope_sweep": sweep_info,
             "workers": nworkers,
+            "workers_on_plain_release_profile": alt_workers,
             "layouts_per_case": if tier == Tier::Thorough { p.layouts_thorough } else { p.layouts_quick },
         },
         "assumptions": K::assumptions(),
